@@ -183,6 +183,14 @@ def ladder_template(rep, cfg, p, key, both_variants, check_callers):
                         probs.append("could not separate the constant-time and variable-time variants (const generic CT)")
     for u in out.unmodelled:
         probs.append("construct outside the ladder template: " + u)
+    if probs:
+        # second reading: execute the per-limb work concretely (64 bit positions, whatever loops / tables it is organised in) and judge the
+        # resulting chain.  Only consulted when the loop-shaped template above does not apply; it accepts nothing but the same function.
+        alt = ladder_unrolled(cfg, p, loc, S, bits, both_variants)
+        if alt is True:
+            probs = []
+        elif alt:
+            probs.append("(per-limb reading: %s)" % alt)
     rep.ob(key, not probs, "the ladder must be the LSB-first double-and-add over all limbs x 64 bits%s: " % (" for both CT and vartime" if both_variants else "") +
            ("template matched" if not probs else "; ".join(probs[:4])), where=cfg.where(p),
            sample={"obligation": key, "loop": Tm.show(v, maxdepth=3)})
@@ -201,6 +209,59 @@ def ladder_template(rep, cfg, p, key, both_variants, check_callers):
             ct_arg = find_ct_arg(b["body"])
             rep.ob("LADDER/M/%s:CT" % nm, ct_arg == ("true" if nm == "scalar_mul" else "false"),
                    "%s must instantiate the ladder with CT = %s; found %s" % (nm, nm == "scalar_mul", ct_arg), where=cfg.where(pp), nontrivial=False)
+
+
+def ladder_unrolled(cfg, p, loc, S, bits, both_variants):
+    """True if, with everything inside the loop over the limbs executed for its 64 bit positions, one limb's step is
+       acc' = t_63, t_k = ITE(bit k of limb, G_ADD(t_{k-1}, G_DBL^k(insert)), t_{k-1}), t_{-1} = acc;  insert' = G_DBL^64(insert)
+    (for both values of the const generic CT), over the whole slice, from (IDENTITY, self), returning acc.  Otherwise a reason."""
+    from . import engine as E, summaries as Sm
+    try:
+        I = E.Interp(cfg.prog, Sm.Summaries(local=loc), {"unroll_max": 64})
+        out = I.run(p)
+    except RecursionError:
+        return "too deep"
+    if out.unmodelled:
+        return "unmodelled: " + "; ".join(out.unmodelled[:2])
+    v = out.value
+    if not (v.op == "proj" and v.args[0].op == "fold"):
+        return "no loop over the limbs"
+    it, limb, accs, inits, nexts = v.args[0].args
+    if it is not bits or len(accs) != 2:
+        return "the outer loop must run over the whole `le_bits` slice carrying (acc, insert)"
+    ident = [i for i, t in enumerate(inits) if G.den(t) is mk("gzero") or is_identity_const(t)]
+    selfi = [i for i, t in enumerate(inits) if t is S]
+    if len(ident) != 1 or len(selfi) != 1 or ident[0] == selfi[0] or v.args[1] != ident[0]:
+        return "state must start at (IDENTITY, self) and the accumulator must be returned"
+    ai, ii = ident[0], selfi[0]
+    a0, s0 = accs[ai], accs[ii]
+    d = s0
+    dbl = [d]
+    for _ in range(64):
+        d = mk("gdbl", d)
+        dbl.append(d)
+    if G.den(nexts[ii]) is not dbl[64]:
+        return "insert must be doubled exactly 64 times per limb"
+    na = G.den(nexts[ai])
+    cps = [u for u in Tm.subterms(na) if u.op == "constparam"]
+    variants = [("single", na)] if not cps else [("constant-time", Tm.assume(na, cps[0], True)), ("variable-time", Tm.assume(na, cps[0], False))]
+    if both_variants and len(variants) < 2:
+        return "could not separate the constant-time and variable-time variants"
+    for vn, t in variants:
+        for k in range(63, -1, -1):
+            flag = Tm.intop("band", Tm.intop("shr", limb, lit(k)), lit(1))
+            if t.op != "ite":
+                return "%s: step %d is not a selection: %s" % (vn, k, Tm.show(t, maxdepth=3))
+            c, x, y = t.args
+            if x.op == "gadd" and x.args[0] is y and x.args[1] is dbl[k] and is_bit_test(c, flag):
+                t = y
+            elif y.op == "gadd" and y.args[0] is x and y.args[1] is dbl[k] and is_bit_test(Tm.not_(c), flag):
+                t = x
+            else:
+                return "%s: step %d must be ITE(bit %d, G_ADD(t, 2^%d * insert), t); got %s" % (vn, k, k, k, Tm.show(t, maxdepth=4))
+        if t is not a0:
+            return "%s: the chain does not start from the accumulator" % vn
+    return True
 
 
 def find_ct_arg(node):
